@@ -281,6 +281,27 @@ pub fn run(op: &str, t: &[&str], v: &[Val], out: &mut Out) -> bool {
                 out.call(|| DR(BigInt::deserialize(De { tok: &tok, _p: () })));
             }
         }
+        // sersign <-1|0|1> : Sign serialised on its own
+        "sersign" => {
+            let s = match t[1] {
+                "-1" => num_bigint::Sign::Minus,
+                "0" => num_bigint::Sign::NoSign,
+                _ => num_bigint::Sign::Plus,
+            };
+            match guard(|| record(&s)) {
+                Some((log, ok)) => {
+                    out.push(&format!("t{}", log.join(",")));
+                    out.push(if ok { "T" } else { "F" });
+                }
+                None => out.push("P"),
+            }
+        }
+        // designs <byte> : Sign deserialised on its own from an i8
+        "designs" => {
+            let b: i8 = pnum(t[1]);
+            let tok = Tok::I8(b);
+            out.call(|| DR(num_bigint::Sign::deserialize(De { tok: &tok, _p: () })));
+        }
         _ => return false,
     }
     true
